@@ -125,6 +125,16 @@ func (q *Queue) Add(elem *queue.Elem) (err error) {
 			return
 		}
 
+		// the expired inflight message is not necessarily the front one: without
+		// inflight_expiry the entries keep the expiry of their messages, in any order
+		for v := q.l.Front(); v != nil && v != q.current; v = v.Next() {
+			if queue.ElemExpiry(now, v.Value.(*queue.Elem)) {
+				dropElem = v
+				dropErr = queue.ErrDropExpiredInflight
+				return
+			}
+		}
+
 		// drop the current elem if there is no more non-inflight messages.
 		if q.inflightDrained && q.current == nil {
 			return
